@@ -233,8 +233,9 @@ func (i *interpreter) fsOpen(path string, flag int) value {
 	fs := i.world.FS()
 	create := flag&oCREATE != 0
 	n := fs.nodes[path]
-	mut := (create && n == nil) || (flag&oTRUNC != 0 && n != nil)
-	i.fsOp("open", path, mut)
+	// every open is a crash point (a crash before a read-only open leaves the
+	// same state as the point before it; counting it keeps the numbering simple)
+	i.fsOp("open", path, true)
 	if n == nil {
 		if !create {
 			return tuple{(*value)(nil), i.pathError("open", path, "notexist")}
